@@ -1748,13 +1748,18 @@ var Engine = &core.Engine{
 	ID:    "C12",
 	Level: "exploration",
 	Rule: "one sequence per case: relation kind (has many, has many with soft-delete targets, has one, belongs to with value / pointer key column, many-to-many, polymorphic has many, polymorphic has one, many-to-many with two-column string keys; soft delete: has one, polymorphic has many and belongs to with soft-delete targets, many-to-many through a join model with a soft-delete column (SetupJoinTable), where a removed link is a soft-deleted join row; " +
-		"key shapes: belongs to a record with an application-assigned string key, belongs to a record with a two-column (integer,string) key through value key columns, has many through a two-column foreign key, many-to-many with two-column keys on both sides - in these three the keys are drawn from pools in which a part holds its zero value (site 0, slug \"\", locale \"\") and keys share parts) " +
+		"key shapes: belongs to a record with an application-assigned string key, belongs to a record with a two-column (integer,string) key through value key columns, has many through a two-column foreign key, many-to-many with two-column keys on both sides - in these three the keys are drawn from pools in which a part holds its zero value (site 0, slug \"\", locale \"\") and keys share parts; " +
+		"keys that are not the conventional ID column: many-to-many and has many that reference a NATURAL key - a renamed, sized, uniquely indexed string column that is not the primary key (foreignKey / references; tags with several of column, index, unique, uniqueIndex in different orders; values carry natural key and primary key as a loaded record does), many-to-many between models whose primary keys live in renamed, explicitly auto-incremented columns - for these the join table is the one gorm generates from the tags of the referenced columns (its column names are read from the parsed relation); " +
+		"polymorphic shapes: polymorphic:Owner, polymorphicType + polymorphicId named one by one, and a polymorphicValue chosen by the application (usr) next to a decoy owner type with the default value) " +
 		"x owner mode (one owner value; two owner values; a slice of 1..3 owner values - []Owner or []*Owner, the latter also passed by value - incl. calls on single elements) x scoping (scoped; Unscoped; mixed) are enumerated from the case index; " +
-		"owners/targets/links are seeded with raw SQL (bystander owners, a decoy polymorphic owner type with equal keys, optionally links of the operated owners; soft-delete kinds: 0..3 leftovers of earlier removals that are not links - soft-deleted target rows whose key column still names an owner, soft-deleted join rows); 3..8 random steps Append/Replace/Delete/Clear/Count/Find (every one of them, Count and Find included, through Association(..) or Association(..).Unscoped() according to the scoping of the case; writes on soft-delete kinds also behind db.Unscoped()) with targets drawn from brand-new (key from the database), brand-new with a key chosen by the application, a value of a record that an earlier Unscoped step of the sequence removed for good (key still set), existing unlinked, already linked, linked to another owner, duplicate-in-call, (slice-level Append / Replace on many-to-many and belongs-to kinds, one call in three per later owner) a record the same call names for an earlier owner of the slice as well, and (Delete) a record without a row, in literal forms &T, T, []T, &[]T, []*T; " +
+		"owners/targets/links are seeded with raw SQL (bystander owners, a decoy polymorphic owner type with equal keys, optionally links of the operated owners; soft-delete kinds: 0..3 leftovers of earlier removals that are not links - soft-deleted target rows whose key column still names an owner, soft-deleted join rows); 3..8 random steps Append/Replace/Delete/Clear/Count/Find (every one of them, Count and Find included, through Association(..) or Association(..).Unscoped() according to the scoping of the case; writes on soft-delete kinds also behind db.Unscoped()) - how the handle is obtained varies: one chain; (one scoped call in three) a kept handle h from which an Unscoped() variant was derived first - h := db.Model(v).Association(f); purge := h.Unscoped(); h.Op(..), a scoped call that must only unlink: counted; (one Unscoped call in four) Association(f).Unscoped().Unscoped() - with targets drawn from brand-new (key from the database), brand-new with a key chosen by the application, a value of a record that an earlier Unscoped step of the sequence removed for good (key still set), existing unlinked, already linked, linked to another owner, duplicate-in-call, (slice-level Append / Replace on many-to-many and belongs-to kinds, one call in three per later owner) a record the same call names for an earlier owner of the slice as well, and (Delete) a record without a row, in literal forms &T, T, []T, &[]T, []*T; " +
 		"calls that name NO target: about one Append in eight and one Replace in ten has no argument at all (Append(items...) with an empty list - every kind incl. has one / belongs to / polymorphic has one, one owner value and a slice of owner values) or (multi-valued kinds) only empty / nil slices ([]T{}, &[]T{}, []*T{}, []T(nil)); one call in ten (multi-valued Append/Replace, every Delete) carries such an empty slice among its other arguments; Delete without targets is Delete() or Delete(<empty slice>); Append of nothing must leave links, records, Count/Find and the in-memory field as they are (on owners that hold links: counted), Replace of nothing is Clear; " +
 		"after every step raw-SQL links and target rows, Count/Find (operated value and fresh value through a scoped handle, fresh value also through an Unscoped() association handle), Count/Find on SLICES of owner values (the operated slice; a fresh slice holding the operated owners in reverse order plus a bystander owner row, through a scoped and an Unscoped() association handle - in every owner mode, so records linked to several owners of the slice are the rule: counted) and the in-memory relation field are compared with the link-set model; on a slice, Count must be the number of (owner, target) links and Find must return one row per link; distinct = (kind, key pools, owner mode, slice element kind, scoping, per step: op, unscoped, slice-level, target classes, changed); non-trivial = at least two steps changed the link set",
 	Assumptions: []string{
-		"every association call is made on a fresh db.Model(value).Association(name) (association handles are not reusable)",
+		"every association OPERATION is made on a fresh db.Model(value).Association(name): a handle never carries two operations (gorm's handles share one statement and are not reusable). Deriving an Unscoped() variant from a handle is not an operation: the handle stays scoped and is then used for one call",
+		"natural-key kinds: a value of a stored record carries its natural key AND its database-assigned primary key (as loaded); a brand-new record carries the natural key only; what gorm does with a value that names a stored natural key but no primary key (a second insert meets the unique index) is not fixed by the statement: not generated",
+		"how gorm names the columns of a generated join table is not part of the property (they are read from the parsed relation); a generated join table that cannot be migrated, or that refuses a raw-SQL link set in which a record has two owners / an owner two records, is a violation (schema-setup-failed / join-table-rejects-link-set): no sequence could store those links",
+		"many-to-many with renamed primary keys: new records with an application-chosen key are not generated (that class, and known finding KF-C12-7 with it, stays with the plain many-to-many)",
 		"has-one / belongs-to Append and Replace get exactly one target (&T) per owner, or no argument at all; Append/Replace on a slice of owners get exactly one argument per owner (association.go: ErrInvalidValueOfLength otherwise), or no argument at all",
 		"a slice argument (empty or not) is never passed to a has-one / belongs-to Append / Replace: which element becomes the target, and what an empty one means there, is not fixed by the statement (gorm forwards it to Replace, which re-saves the owner's in-memory field)",
 		"Append() without arguments on a slice of owners: gorm may refuse it with ErrInvalidValueOfLength (it does for has many / many-to-many) or accept it (has one / belongs to); either way the call names no target and everything must stay as it is; any other error is a violation",
